@@ -497,6 +497,37 @@ func c04Annotations(c *Ctx, r *R) {
 				continue // building the result map, not the walk accumulator
 			}
 			n++
+			// the value appended is the entry itself, and only where it IS an annotation: it comes from a
+			// type assertion to *AnnotationEntry and the append sits behind that assertion's ok edge
+			// (comma-ok form) or in the type switch's *AnnotationEntry case
+			okAnn := false
+			for _, el := range eng.VariadicElems(k.Instr.Common().Args[1]) {
+				for _, root := range []ssa.Value{el} {
+					var ta *ssa.TypeAssert
+					if ex, ok := root.(*ssa.Extract); ok && ex.Index == 0 {
+						ta, _ = ex.Tuple.(*ssa.TypeAssert)
+					} else if t, ok := root.(*ssa.TypeAssert); ok {
+						ta = t
+					}
+					if ta == nil || !strings.HasSuffix(ta.AssertedType.String(), "pkg/rsl.AnnotationEntry") {
+						continue
+					}
+					if !ta.CommaOk {
+						okAnn = true
+						continue
+					}
+					for _, ref := range *ta.Referrers() {
+						if ex, ok := ref.(*ssa.Extract); ok && ex.Index == 1 {
+							for _, e := range eng.BoolEdges(fn, eng.PSame(ex), true) {
+								if eng.EdgeDominates(e, k.Block()) {
+									okAnn = true
+								}
+							}
+						}
+					}
+				}
+			}
+			r.Check(okAnn, "accumulates-annotations:"+spec[strings.LastIndex(spec, ".")+1:]+":"+itoa(n), k.Pos(), "an entry is accumulated exactly where it is an annotation", "the walk accumulates an entry as annotation on the wrong side of the `is it an annotation` test (annotations met on this part of the walk are lost)")
 			// innermost loop header dominating this block
 			var head *ssa.BasicBlock
 			for _, b := range fn.Blocks {
